@@ -76,6 +76,10 @@ def known_match(known, prop_id, sig):
             return k
         if k['signature'].endswith('*') and not k['signature'].startswith('*') and sig.startswith(k['signature'][:-1]):
             return k
+        if k['signature'].count('*') == 1 and not k['signature'].startswith('*') and not k['signature'].endswith('*'):
+            a_, b_ = k['signature'].split('*')
+            if sig.startswith(a_) and sig.endswith(b_) and len(sig) >= len(a_) + len(b_):
+                return k
         if k['signature'].startswith('*') and k['signature'].endswith('*') and len(k['signature']) > 2 \
                 and k['signature'][1:-1] in sig:
             return k
@@ -322,6 +326,7 @@ def main(prop_id, tier='quick', replay=None):
     # 5. label floors
     floor_err = []
     total_ok = agg['evaluations'] - sum(agg['skipped'].values())
+    total_ok -= agg['labels'].get(getattr(mod, 'FLOOR_EXCLUDE_LABEL', '\0'), 0)
     for lab, frac in getattr(mod, 'LABEL_FLOORS', {}).items():
         got = agg['labels'].get(lab, 0) / max(1, total_ok)
         if got < frac and n_examples >= 200:
